@@ -609,6 +609,35 @@ let handle line =
     if stats_b (n_of_string p) (List.map ev_of (List.filter (fun s -> s <> "") evs))
         (n_of_string added) (n_of_string removed) (n_of_string qty) (n_of_string value)
     then "= 1" else "= 0"
+  (* ---- judges of the concurrent properties (Spec/ConcJudges.v) on the scheduler's event log ---- *)
+  (* C12: JUDGE range <sq>/<sn>/<cv>/<ch>/<cc> ...   one token per scheduled step: quantity and orders supplied
+     so far, then the three aggregates read after the step *)
+  | "JUDGE" :: "range" :: rows ->
+    let row_of s = (match String.split_on_char '/' s with
+        | [sq; sn; cv; ch; cc] -> ((n_of_string sq, n_of_string sn), ((n_of_string cv, n_of_string ch), n_of_string cc))
+        | _ -> failwith ("bad row " ^ s)) in
+    if range_b (List.map row_of (List.filter (fun s -> s <> "") rows)) then "= 1" else "= 0"
+  (* C08: JUDGE handout <listing after set-up> <tid>~<event> ...   (events as in CTRACE) *)
+  | "JUDGE" :: "handout" :: init :: toks ->
+    let tr = List.filter_map (fun tok ->
+        if tok = "" then None else
+          match String.split_on_char '~' tok with
+          | tid :: fields -> Some (nat_of_int (int_of_string tid), ev_of_fields fields)
+          | [] -> None) toks in
+    if handout_b (ids (parse_list order_of_string init)) tr then "= 1" else "= 0"
+  (* C08: JUDGE cells <listing after set-up> <listing at quiescence | -> <tid>~<event> ... *)
+  | "JUDGE" :: "cells" :: init :: fin :: toks ->
+    let tr = List.filter_map (fun tok ->
+        if tok = "" then None else
+          match String.split_on_char '~' tok with
+          | tid :: fields -> Some (nat_of_int (int_of_string tid), ev_of_fields fields)
+          | [] -> None) toks in
+    let m0 = parse_list order_of_string init in
+    if cells_b m0 tr && (fin = "-" || final_cells_b m0 tr (parse_list order_of_string fin)) then "= 1" else "= 0"
+  (* C08: JUDGE drained <remaining> <listing after the draining match> <cv> <ch> <cc> *)
+  | ["JUDGE"; "drained"; rem; after; cv; ch; cc] ->
+    if drained_b (n_of_string rem) (parse_list order_of_string after) (n_of_string cv) (n_of_string ch) (n_of_string cc)
+    then "= 1" else "= 0"
   | ["PING"] -> "= pong"
   | _ -> "= error unknown command: " ^ line
 
